@@ -10,8 +10,9 @@ No Mathlib here: the drivers import this file.
 -/
 namespace Bee2V.C15
 
-/-- what is known about a blob variable on a path -/
-inductive VS | unk | null | live | closed
+/-- what is known about a blob variable on a path (`raw`/`wiped`: a block obtained from memAlloc/malloc
+directly, not yet / already overwritten by memWipe over its full size) -/
+inductive VS | unk | null | live | closed | raw | wiped
 deriving DecidableEq, Repr
 
 /-- progress of authentication on a path: no verification call yet / result pending / the result
@@ -29,6 +30,9 @@ inductive Ev
   | allocFail (v : Nat)   -- v = blobCreate(..) returned 0
   | resizeOk (v : Nat)    -- v = blobResize(v, ..) succeeded
   | resizeFail (v : Nat)  -- v = blobResize(v, ..) returned 0 (v overwritten with 0)
+  | rawOk (v : Nat)       -- v = memAlloc(n) / malloc(n) succeeded (a block WITHOUT the blob wrapper)
+  | rawFail (v : Nat)     -- … returned 0
+  | wipe (v : Nat)        -- memWipe(v, n) with n the size v was allocated with
   | resizeKeep (v : Nat)  -- t = blobResize(v, ..) returned 0 into a temporary: v keeps its block
   | cls (n : Nat)         -- the err_t constant n occurs in the value being returned / assigned to `code`
   | calleeFail (f : Nat)  -- an err_t callee that allocates failed and its result was DISCARDED
@@ -127,9 +131,10 @@ deriving DecidableEq, Repr
 namespace St
 def init : St := {}
 def st (s : St) (v : Nat) : VS := getAt .unk s.vs v
-def isLive (s : St) (v : Nat) : Bool := s.st v == .live
+/-- v holds a block this function owns (open blob, or raw block wiped or not) -/
+def isLive (s : St) (v : Nat) : Bool := s.st v == .live || s.st v == .raw || s.st v == .wiped
 def setv (s : St) (v : Nat) (x : VS) : St := { s with vs := setAt .unk s.vs v x }
-def noLive (s : St) : Bool := s.vs.all (fun x => x != .live)
+def noLive (s : St) : Bool := s.vs.all (fun x => x != .live && x != .raw && x != .wiped)
 def isDirty (s : St) (d : Nat) : Bool := getAt false s.dirty d
 def isEarly (s : St) (d : Nat) : Bool := getAt false s.early d
 
@@ -137,7 +142,13 @@ def isEarly (s : St) (d : Nat) : Bool := getAt false s.early d
 def apply (s : St) : Ev → St
   | .allocOk v => { s.setv v .live with lost := s.lost || s.isLive v }
   | .allocFail v => { s.setv v .null with lost := s.lost || s.isLive v, failed := true }
-  | .resizeOk v => s.setv v .live
+  | .resizeOk v => { s.setv v .live with lost := s.lost || s.st v == .raw || s.st v == .wiped }
+  | .rawOk v => { s.setv v .raw with lost := s.lost || s.isLive v }
+  | .rawFail v => { s.setv v .null with lost := s.lost || s.isLive v, failed := true }
+  | .wipe v =>
+    match s.st v with
+    | .raw => s.setv v .wiped
+    | _ => s
   | .resizeFail v => { s.setv v .null with lost := s.lost || s.isLive v, failed := true }
   | .resizeKeep _ => { s with failed := true }
   | .calleeFail _ => { s with failed := true }
@@ -146,8 +157,15 @@ def apply (s : St) : Ev → St
     match s.st v with
     | .live => s.setv v .closed
     | .closed => { s with lost := true }
+    | .raw => { s with lost := true }       -- blobClose of a block that has no blob header
+    | .wiped => { s with lost := true }
     | _ => s
-  | .free v => if s.isLive v then { s.setv v .closed with lost := true } else s
+  | .free v =>
+    match s.st v with
+    | .live => { s.setv v .closed with lost := true }    -- blob freed directly (not wiped)
+    | .raw => { s.setv v .closed with lost := true }     -- raw block freed without a wipe
+    | .wiped => s.setv v .closed
+    | _ => s
   | .setnull v => { s.setv v .null with lost := s.lost || s.isLive v }
   | .setunk v => { s.setv v .unk with lost := s.lost || s.isLive v }
   | .use v => { s with crash := s.crash || s.st v == .null || s.st v == .closed }
@@ -171,6 +189,11 @@ def RetV.eval (s : St) : RetV → CS
   | .code => s.code
   | .unk => .unk
 
+/-- a status that says the pointer is not null -/
+def VS.nonNull : VS → Bool
+  | .live | .closed | .raw | .wiped => true
+  | _ => false
+
 inductive Out | norm | brk | cont | ret (r : CS)
 deriving DecidableEq, Repr
 
@@ -189,7 +212,7 @@ inductive Exec : Cfg → St → List Ev → St → Out → Prop
   | seqX {a b s t1 s1 o} : Exec a s t1 s1 o → o ≠ .norm → Exec (.seq a b) s t1 s1 o
   | iteT {c t e s tr s' o} : Exec t s tr s' o → Exec (.ite c t e) s tr s' o
   | iteF {c t e s tr s' o} : Exec e s tr s' o → Exec (.ite c t e) s tr s' o
-  | ifnullT {v t e s tr s' o} : s.st v ≠ .live → s.st v ≠ .closed → Exec t s tr s' o →
+  | ifnullT {v t e s tr s' o} : (s.st v).nonNull = false → Exec t s tr s' o →
       Exec (.ifnull v t e) s tr s' o
   | ifnullF {v t e s tr s' o} : s.st v ≠ .null → Exec e s tr s' o →
       Exec (.ifnull v t e) s tr s' o
@@ -245,7 +268,7 @@ def reach : Cfg → List St → Res
     { norm := uni rt.norm re.norm, brk := uni rt.brk re.brk, cont := uni rt.cont re.cont,
       rets := uniR rt.rets re.rets, ok := rt.ok && re.ok }
   | .ifnull v t e, S =>
-    let rt := reach t (S.filter fun s => s.st v != .live && s.st v != .closed)
+    let rt := reach t (S.filter fun s => !(s.st v).nonNull)
     let re := reach e (S.filter fun s => s.st v != .null)
     { norm := uni rt.norm re.norm, brk := uni rt.brk re.brk, cont := uni rt.cont re.cont,
       rets := uniR rt.rets re.rets, ok := rt.ok && re.ok }
